@@ -536,3 +536,9 @@ class ReadUnit(Unit):
 
 
 UNITS = [WriterUnit(), RefreshUnit(), SeekTellUnit(), ReadUnit()]
+
+
+def extra_checks(tier, seed, pool):
+    """assumed contracts of repository-internal callees, compared with the real functions natively (contracts/conformance.py)"""
+    from . import conformance
+    return conformance.run(['scan_logfiles'])
